@@ -57,6 +57,8 @@ def install(it):
 
     def call_native(fn, args, kwargs):
         slf = getattr(fn, "__self__", None)
+        if isinstance(fn, _Identity):  # lru_cache(n)(f): the decorator object applied to an interpreted function
+            return fn(*args, **kwargs)
         if isinstance(slf, logging.Logger):
             return None
         if slf is os.environ:
